@@ -35,6 +35,9 @@ def float_case(args):
     if conf == "UP":
         kw = dict(padding=((1, 1),) * D, lhs_dilation=(2,) * D, rhs_dilation=1)
         torus = False
+    elif conf == "MIXED":   # per-axis flags: the first axis toroidal, the second open (the flags travel with the axes under g)
+        kw = dict(padding=None, lhs_dilation=None, rhs_dilation=rng.choice([1, 2]) if N >= 4 else 1)
+        torus = ((True, False) + (True,) * D)[:D] if idx % 2 == 0 else ((False, True) + (False,) * D)[:D]
     else:
         kw = dict(padding=None, lhs_dilation=None, rhs_dilation=rng.choice([1, 2]) if N >= 4 else 1)
         torus = conf == "TORUS"
@@ -65,7 +68,7 @@ def float_case(args):
                 if set(lhs.keys()) != set(rhs.keys()) or defect > 1e-4:
                     fails.append({"key": dict(key, what="layer(g.x) != g.layer(x)", type=list(t), g=np.asarray(gg).tolist(), defect=float(defect))})
         if torus:
-            for ax in range(D):
+            for ax in [a for a in range(D) if (torus is True or (torus is not False and torus[a]))]:
                 xs = geom.MultiImage({t: jnp.roll(v, 1, axis=1 + ax) for t, v in x.items()}, D, torus)
                 lhs = convlib.quiet(layer, xs)
                 for t in y.keys():
@@ -109,7 +112,7 @@ def main(tier):
     fitems = []
     modes = ["auto", "mean", "scalar", "true", "false"]
     combos = [(2, "B", "TORUS", 2), (2, "B", "SAME", 1), (2, "B", "UP", 1), (2, "ROT", "TORUS", 1), (2, "FLIP", "SAME", 1),
-              (3, "B", "TORUS", 1), (3, "ROT", "SAME", 1)]
+              (3, "B", "TORUS", 1), (3, "ROT", "SAME", 1), (2, "B", "MIXED", 1), (3, "B", "MIXED", 1)]
     reps = 1 if tier == "quick" else 6
     for r in range(reps):
         for ci, (D, grp, conf, kcap) in enumerate(combos):
